@@ -580,7 +580,7 @@ func (fx *FnCtx) frameCheck(st *State, heap, ref string, at ast.Node) {
 
 // havocCallFrame havocs (coarsely: whole arrays) what a call inside a loop body may modify.
 func (fx *FnCtx) havocCallFrame(st *State, call *ast.CallExpr) {
-	if fx.isBuiltinOrConv(call) {
+	if fx.isBuiltinOrConv(call) || fx.isIntrinsic(call) {
 		return
 	}
 	ci := fx.resolveCallee(st, call)
